@@ -55,7 +55,7 @@ def run(ctx, tier):
             r.violations.append(Violation('C09', 'C09.range', b.path, 'range', '; '.join(why) + ' for finite inputs', loc=b.loc(0)))
     if n < 4:
         r.violations.append(Violation('C09', 'C09.range', 'oxmpl', 'floor', 'only %d primitive/compound distance functions analysed (floor 4)' % n))
-    return [r, _repr(ctx), _cut(ctx)]
+    return [r, _repr(ctx), _cut(ctx)] + _algebra(ctx)
 
 
 def _cut(ctx):
@@ -157,6 +157,12 @@ def _repr(ctx):
             m += 1
             res = Parity(ctx, ctx.core).analyze(b, {i}).get(('ret',))
             ok = res == E
+            if not ok:
+                # second prover: the normal form of the result is unchanged when the parameter is negated
+                from ..symrules import analyze as _an, sign_invariant
+                sv, _n = _an(ctx, b)
+                if ('ret',) in sv and sign_invariant({'ret': sv[('ret',)]}, i) == 'E':
+                    ok, res = True, E
             r.inst('%s is %s in `%s`' % (b.path, {'E': 'even', 'O': 'odd'}.get(res, 'not shown even'), b.local_name(i)), ok=ok, site=b.loc(0))
             if not ok:
                 r.violations.append(Violation(
@@ -167,3 +173,66 @@ def _repr(ctx):
     if m < 2:
         r.violations.append(Violation('C09', 'C09.repr', 'oxmpl', 'floor', 'only %d (SO(3) distance, argument) pairs analysed (floor 2)' % m))
     return r
+
+
+def _algebra(ctx):
+    """C09.sym / C09.zero / C09.period - algebraic clauses decided on the normal form of each `distance` body
+    (oxa/symval.py: value numbering over polynomial normal forms with gating terms; real-number reading, rounding is
+    outside).  sym: the normal form is unchanged when the two state parameters are exchanged; zero: with both parameters
+    the same state it reduces to the constant 0 (unit quaternions: x^2+y^2+z^2+w^2 = 1); period: on SO(2) it is unchanged
+    when 2 pi K (K an integer) is added to either angle.  A form the value numbering does not track is UNDECIDED (listed,
+    no alarm); two forms that differ are a violation only when they also differ as real functions (oxa/symrules.py)."""
+    from ..symval import Poly, swap_params, replace_param, subst, fmt_poly
+    from ..symrules import analyze, opaque, deep_unit, term_differs
+    rs = RuleResult('C09.sym', 'distance(a, b) and distance(b, a) have the same normal form (symmetry over the reals)')
+    rz = RuleResult('C09.zero', 'distance(a, a) reduces to the constant 0 (unit quaternions assumed unit)')
+    rp = RuleResult('C09.period', 'SO(2) distance is unchanged when a multiple of 2 pi is added to either angle')
+    n = 0
+    for b in sorted(ctx.lib_bodies(), key=lambda x: x.path):
+        if b.impl_trait != SS or b.name != 'distance' or b.kind != 'AssocFn' or b.arg_count != 3:
+            continue
+        n += 1
+        res, _notes = analyze(ctx, b)
+        P = res.get(('ret',))
+        if opaque(P):
+            for rr in (rs, rz):
+                rr.inst('%s: undecided - the value is not tracked to a closed normal form (%s)' % (b.path, fmt_poly(P)[:120]), ok=True, nontrivial=False)
+            continue
+        S = swap_params(P, 2, 3)
+        if S is not None and S == P:
+            rs.inst('%s: normal form invariant under exchanging the states: %s' % (b.path, fmt_poly(P)[:160]), ok=True, site=b.loc(0))
+        elif S is None or term_differs(P, S) is not True:
+            rs.inst('%s: undecided - exchanged form differs syntactically but not at any evaluation point' % b.path, ok=True, nontrivial=False)
+        else:
+            rs.inst('%s: exchanged form differs' % b.path, ok=False, site=b.loc(0))
+            rs.violations.append(Violation('C09', 'C09.sym', b.path, 'symmetry',
+                                           'distance(a, b) = %s but distance(b, a) = %s: the two are different functions of the states (not symmetric)' % (
+                                               fmt_poly(P)[:300], fmt_poly(S)[:300]), loc=b.loc(0)))
+        Z = deep_unit(replace_param(P, 3, 2))
+        if Z is not None and Z.is_zero():
+            rz.inst('%s: distance(a, a) reduces to 0' % b.path, ok=True, site=b.loc(0))
+        elif Z is None or term_differs(Z, Poly(), tol=1e-6) is not True:
+            rz.inst('%s: undecided - distance(a, a) = %s is not reduced to 0 but evaluates to 0' % (b.path, fmt_poly(Z)[:120]), ok=True, nontrivial=False)
+        else:
+            rz.inst('%s: distance(a, a) = %s' % (b.path, fmt_poly(Z)[:120]), ok=False, site=b.loc(0))
+            rz.violations.append(Violation('C09', 'C09.zero', b.path, 'identity',
+                                           'distance(a, a) reduces to %s, which is not 0: a state is at non-zero distance from itself' % fmt_poly(Z)[:300], loc=b.loc(0)))
+        if any(b.local_ty(i).endswith('SO2State') for i in (2, 3)):
+            for o, i in enumerate((2, 3)):
+                def f(a, _i=i):
+                    if a[0] == 'leaf' and a[1] == _i:
+                        return Poly.atom(a) + Poly.atom(('int', 'K')).scale(2 * math.pi)
+                    return None
+                Q = subst(P, f)
+                if Q is not None and Q == P:
+                    rp.inst('%s: unchanged under `%s` + 2 pi K' % (b.path, b.local_name(i)), ok=True, site=b.loc(0))
+                elif Q is None or term_differs(P, Q) is not True:
+                    rp.inst('%s: undecided for `%s`' % (b.path, b.local_name(i)), ok=True, nontrivial=False)
+                else:
+                    rp.inst('%s: changes under `%s` + 2 pi K' % (b.path, b.local_name(i)), ok=False, site=b.loc(0))
+                    rp.violations.append(Violation('C09', 'C09.period', b.path, 'period:' + str(b.local_name(i)),
+                                                   'the distance changes when 2 pi K is added to `%s` (an equivalent angle): %s becomes %s' % (
+                                                       b.local_name(i), fmt_poly(P)[:250], fmt_poly(Q)[:250]), loc=b.loc(0), ordinal=o))
+    if n < 6:
+        rs.violations.append(Violation('C09', 'C09.sym', 'oxmpl', 'floor', 'only %d distance functions found (floor 6)' % n))
+    return [rs, rz, rp]
